@@ -277,6 +277,9 @@ def hashseed_runs(ccs):
         outs[hs] = json.loads(r.stdout.strip().splitlines()[-1])
     diffs = [dict(call=k, outputs={hs: outs[hs][k] for hs in outs}) for k in outs["0"]
              if len({outs[hs][k] for hs in outs}) > 1]
+    for k, v in outs["0"].items():
+        if v.startswith("raise ") and v != "raise GenerateRandomOverflowError":
+            diffs.append(dict(call=k, outputs={"outcome": v, "admitted": "a valid IBAN or GenerateRandomOverflowError"}))
     for hs in outs:
         for k, v in outs[hs].items():
             if k.endswith("/again") and v != outs[hs][k[:-len("/again")]]:
